@@ -469,7 +469,22 @@ impl MetaIterator {
 
 impl KotoIterator for MetaIterator {
     fn make_copy(&self) -> Result<KIterator> {
-        Ok(KIterator::new(self.clone()))
+        // The map that holds the iterator's state is copied (as in `koto.copy`),
+        // so that the copied iterator can be advanced independently.
+        let iterator = match &self.iterator {
+            KValue::Map(m) => KMap::with_contents(
+                m.data().clone(),
+                m.meta_map().map(|meta| meta.borrow().clone()),
+            )
+            .into(),
+            other => other.clone(),
+        };
+
+        Ok(KIterator::new(Self {
+            vm: self.vm.clone(),
+            iterator,
+            is_bidirectional: self.is_bidirectional,
+        }))
     }
 
     fn is_bidirectional(&self) -> bool {
